@@ -104,6 +104,49 @@ def closure_body_ret(cr, clo):
     alts = body.ret_alternatives()
     return alts[0][1] if len(alts) == 1 and not body.loops() else None
 
+def closure_side_effect(cr, clo):
+    """a closure that is called once per element of a hash container, in hash order, must not leave a trace of that order:
+    returns a description if its body writes through its environment or takes a mutable reborrow of captured state"""
+    clo = peel(clo)
+    if clo[0] != 'agg' or not str(clo[1]).startswith('closure|'):
+        return None
+    p = clo[1].split('|', 1)[1]
+    b = cr.bodies.get(p)
+    if not b or 'mir' not in b:
+        return None
+    body = Body(cr, p, b['mir'])
+    # locals that hold (copies of) pointers into the closure's environment: _1 itself, `_k = copy/move (*_1).f..`, and copies of those
+    env = {1}
+    changed = True
+    while changed:
+        changed = False
+        for blk in body.blocks:
+            if blk['cleanup']:
+                continue
+            for st in blk['st']:
+                if st['s'] != 'assign' or st['place']['pr']:
+                    continue
+                rv = st['rv']
+                src = None
+                if rv['r'] == 'use' and rv['op'].get('place'):
+                    src = rv['op']['place']
+                elif rv['r'] == 'ref':
+                    src = rv['place']
+                if src is not None and src['l'] in env and st['place']['l'] not in env:
+                    env.add(st['place']['l']); changed = True
+    for l, ws in body.writes_through.items():
+        if l in env:
+            return 'its closure %s writes to captured state (bb%d)' % (p.split('::', 1)[-1], ws[0][0])
+    for bi, blk in enumerate(body.blocks):
+        if blk['cleanup']:
+            continue
+        for st in blk['st']:
+            if st['s'] == 'assign' and st['rv']['r'] == 'ref' and st['rv'].get('mut'):
+                pl = st['rv']['place']
+                if pl['l'] in env and pl['pr'] and pl['pr'][0]['p'] == 'deref' and (pl['l'] != 1 or len(pl['pr']) >= 2):
+                    return 'its closure %s mutably reborrows captured state (bb%d)' % (p.split('::', 1)[-1], bi)
+    return None
+
 def peel(t):
     while t[0] in ('ref', 'deref', 'unsize'):
         t = t[1]
@@ -152,6 +195,13 @@ def check_crate(cr, ctx, label):
                 ctx.violation('order-taint', None, fn, 'hash-map iteration at %s: %s' % (where, what), key='C17/order-taint/%s/%s' % (label, fn), construct=fn, kind=kind)
             if sink:
                 bad('a hash container is consumed by %s, which stores its elements in hash order into the receiver; the rule set does not follow the order through it' % key, 'unrecognised'); continue
+            # closures handed to the source call itself (retain, extract_if, ...) run once per element in hash order
+            se = None
+            if T[0] == 'call':
+                for a in T[2]:
+                    se = se or closure_side_effect(cr, a)
+            if se:
+                bad('%s: state written in hash order survives the call' % se); continue
             ok = True
             sorts = []
             for b2, k2, c2, t2 in body.calls():
@@ -164,6 +214,11 @@ def check_crate(cr, ctx, label):
                         and any(is_btree_type(cr, a) for a in c2.get('args', [])):
                     sorts.append((b2, 'btree-collect', args)); continue      # an ordered container sorts by its (unique) key
                 if k2 in PROPAGATE or k2 in ORDER_FREE:
+                    se = None
+                    for a in args:
+                        se = se or closure_side_effect(cr, a)
+                    if se:
+                        bad('%s while it is applied to the elements in hash order' % se); ok = False; break
                     continue
                 if k2 in SORTS:
                     sorts.append((b2, k2, args)); continue
@@ -226,7 +281,7 @@ def check_crate(cr, ctx, label):
     return n_sites
 
 def fixture_stage():
-    st = X.Stage('fixture-c17-v4')
+    st = X.Stage('fixture-c17-v5')
     def build(out):
         ws = X.scratch_dir('fx17')
         try:
@@ -261,11 +316,11 @@ def main(tier, seed, t0):
         check_crate(Crate(ffp), fctx, 'fixture')
         flagged = {v['item'].split('::')[-1]: v['rule'] for v in fctx.violations}
         want = {'bad_unsorted': 'order-taint', 'bad_conditional_sort': 'order-taint', 'bad_random_state': 'denylist', 'bad_time': 'denylist', 'bad_process_state': 'denylist', 'FIRST': 'process-state',
-                'bad_set_difference': 'order-taint', 'bad_extend_from_set': 'order-taint', 'bad_debug_format': 'order-taint'}
+                'bad_set_difference': 'order-taint', 'bad_extend_from_set': 'order-taint', 'bad_debug_format': 'order-taint', 'bad_retain_last_visited': 'order-taint', 'bad_map_counter': 'order-taint'}
         for k, r in want.items():
             if flagged.get(k) != r:
                 ctx.error('positive fixture %s not flagged by %s (got %s): the rule is broken' % (k, r, flagged.get(k)))
-        if any(g in flagged for g in ('good_sorted', 'GOOD_TABLE', 'good_point_ops', 'good_btree_collect')):
+        if any(g in flagged for g in ('good_sorted', 'GOOD_TABLE', 'good_point_ops', 'good_btree_collect', 'good_retain_pure')):
             ctx.error('a negative fixture was flagged: %s' % flagged)
         ctx.sample({'fixtures_flagged': flagged})
     ctx.programs = {'enum_tools'}
